@@ -12,7 +12,8 @@ class Alpha:
     def __init__(self, ranges, exclude=(), name=None):
         self.ranges = [tuple(r) for r in ranges]
         self.exclude = tuple(ord(c) if isinstance(c, str) else c for c in exclude)
-        self.name = name or 'alpha'
+        import hashlib
+        self.name = (name or 'alpha') + '~' + hashlib.md5(repr((self.ranges, self.exclude)).encode()).hexdigest()[:6]
 
     def constrain(self, v):
         c = z3.Or(*[(v == lo) if lo == hi else z3.And(v >= lo, v <= hi) for lo, hi in self.ranges])
@@ -51,7 +52,9 @@ class SymDraw:
 
     def string(self, name, n, alpha):
         def make():
-            vs = [z3.Int('%s#%d' % (name, i)) for i in range(n)]
+            # the solver variable is specific to (name, length, alphabet): domain constraints live at the solver's base level
+            # for the whole obligation, so one variable must never be declared with two different domains
+            vs = [z3.Int('%s#%d|%d|%s' % (name, i, n, alpha.name)) for i in range(n)]
             return vs, [alpha.constrain(v) for v in vs], [(v, alpha) for v in vs]
         vs = E.declare('s:%s:%d:%s' % (name, n, alpha.name), make)
         self._reg(name, 'str', vs)
@@ -60,7 +63,7 @@ class SymDraw:
     def char_in(self, name, chars):
         """one character among the given ones, symbolic"""
         def make():
-            v = z3.Int(name + '#0')
+            v = z3.Int('%s#0|in|%s' % (name, chars))
             return [v], [z3.Or(*[v == ord(c) for c in chars])], [(v, Alpha([(ord(c), ord(c)) for c in chars]))]
         vs = E.declare('c:%s:%s' % (name, chars), make)
         self._reg(name, 'str', vs)
@@ -72,7 +75,7 @@ class SymDraw:
             return 0
 
         def make():
-            v = z3.Int(name)
+            v = z3.Int('%s|%d' % (name, k))
             return (v, [v == i for i in range(k)]), [z3.And(v >= 0, v < k)], []
         v, eqs = E.declare('i:%s:%d' % (name, k), make)
         self._reg(name, 'int', v)
